@@ -67,7 +67,10 @@ pub fn column_oracle(exp: &Expect, obs: &Obs, prov: &BTreeMap<i64, Prov>, after:
         let Some((c, u)) = exp.get(&r.id) else { continue };
         let class = prov.get(&r.id).map(|p| p.class()).unwrap_or_else(|| "?".into());
         if r.created != Some(*c) {
-            bad_created.entry(class.clone()).or_default().push((r.id, *c, r.created));
+            // the confirmed defect (Update arm of build_manifest reading fragment row_id>>32 at
+            // offset row_id) yields the created-at of fragment 0 / the default, i.e. 1 here
+            let kind = if r.created == Some(1) { "created-at-is-1" } else { "created-at-wrong" };
+            bad_created.entry(format!("{kind}:{class}")).or_default().push((r.id, *c, r.created));
         }
         if r.updated != Some(*u) {
             bad_updated.entry(class).or_default().push((r.id, *u, r.updated));
@@ -75,7 +78,7 @@ pub fn column_oracle(exp: &Expect, obs: &Obs, prov: &BTreeMap<i64, Prov>, after:
     }
     for (class, v) in bad_created {
         out.push(Finding::new(
-            format!("created-at-wrong:{class}"),
+            class.clone(),
             format!(
                 "{} rows ({class}) report a wrong _row_created_at_version at v{} (after {after}); e.g. id {} expected {} got {:?}",
                 v.len(),
